@@ -1271,7 +1271,11 @@ def m_list_mut(I, st, call):
 
 @model("alloc::collections::btree::map::BTreeMap::<K, V, A>::iter", "alloc::collections::btree::map::BTreeMap::<K, V, A>::iter_mut",
        "alloc::collections::linked_list::LinkedList::<T, A>::iter", "alloc::collections::linked_list::LinkedList::<T, A>::iter_mut",
-       "<alloc::collections::linked_list::LinkedList<T, A> as core::iter::traits::collect::IntoIterator>::into_iter")
+       "<alloc::collections::linked_list::LinkedList<T, A> as core::iter::traits::collect::IntoIterator>::into_iter",
+       "<&'a mut alloc::collections::btree::map::BTreeMap<K, V, A> as core::iter::traits::collect::IntoIterator>::into_iter",
+       "<&'a alloc::collections::btree::map::BTreeMap<K, V, A> as core::iter::traits::collect::IntoIterator>::into_iter",
+       "<&'a alloc::collections::linked_list::LinkedList<T, A> as core::iter::traits::collect::IntoIterator>::into_iter",
+       "<&'a mut alloc::collections::linked_list::LinkedList<T, A> as core::iter::traits::collect::IntoIterator>::into_iter")
 def m_coll_iter(I, st, call):
     attrs = [("iter", call.name)]
     if "btree" in call.path:
